@@ -252,17 +252,18 @@ def gen_trace(tdgl, args, tmp):
     g["A"] = [int(round(a * U * U)) for a in dev.areas]
     g["OUT"] = [[q(p) for p in film.points[:-1]]] + [[q(p) for p in h.points[:-1]] for h in holes]
     g["PER"] = int(round(sum(r.length for r in rings) * U)) + 1
-    # reference formulas on the dimensionless mesh
-    redges, W, rarea, wc, ereg, _ = ref_cot(m.sites, m.elements)
+    # reference formulas on the device coordinates (length units); the code's areas are Device.areas
+    redges, W, rarea, wc, ereg, _ = ref_cot(pts, tri)
     pos = {e: n for n, e in enumerate(redges)}
     em = m.edge_mesh
-    sa = 10.0 ** math.floor(math.log10(1.0e9 / max(float(np.max(m.areas)), float(np.max(np.abs(rarea))), 1e-30)))
+    dareas = np.asarray(dev.areas, dtype=float)
+    sa = 10.0 ** math.floor(math.log10(1.0e9 / max(float(np.max(dareas)), float(np.max(np.abs(rarea))), 1e-30)))
     sa = min(sa, 1.0e9)
     ratio = em.dual_edge_lengths / em.edge_lengths
     sw = 10.0 ** math.floor(math.log10(1.0e9 / max(float(np.max(ratio)), float(np.max(np.abs(W))), 1e-30)))
     sw = min(sw, 1.0e9)
     g["tol"] = 5
-    g["SITE"] = [{"wc": bool(wc[i]), "a": _q(m.areas[i], sa), "c": _q(rarea[i], sa)} for i in range(nsites)]
+    g["SITE"] = [{"wc": bool(wc[i]), "a": _q(dareas[i], sa), "c": _q(rarea[i], sa)} for i in range(nsites)]
     ctr = np.asarray(em.centers) * xi
     dirs = np.asarray(em.directions) * xi
     elen = np.asarray(dev.edge_lengths)
@@ -292,3 +293,45 @@ def strip_trace(t):
         return {"kind": "exact", "P": t["P"], "T": t["T"], "ob": {k: v for k, v in t["ob"].items() if k != "msg"}}
     keep = ("kind", "holes", "P", "T", "E", "ET", "B", "BS", "OS", "OE", "A", "OUT", "PER", "tol", "SITE", "EDGE", "TERM")
     return {k: t[k] for k in keep}
+
+
+# ------------------------------------------------------------------ parallel batch validation
+
+
+def validate_parallel(ctx, traces, what, nthreads=6, chunk=None):
+    """Validate one-state traces with MeshGeomTrace in parallel TLC runs; returns the accepted indices."""
+    import concurrent.futures as cf
+    import re
+
+    if not traces:
+        return set()
+    chunk = chunk or max(8, len(traces) // nthreads + 1)
+    parts = [(k, traces[k:k + chunk]) for k in range(0, len(traces), chunk)]
+    tdir = ctx.tmp / "traces"
+    tdir.mkdir(exist_ok=True)
+    cfg = trace_cfg()
+
+    def one(part):
+        k, ts = part
+        tf = tdir / f"{what}_{k}.json"
+        tf.write_text(json.dumps([strip_trace(t) for t in ts]))
+        r = core.run_tlc("MeshGeomTrace", cfg, ctx.tmp / f"tlc_{what}_{k}", workers=1, env={"TRACE_FILE": str(tf)}, heap="2g",
+                         java_opts=("-XX:TieredStopAtLevel=1", "-XX:ParallelGCThreads=2"))
+        return k, len(ts), r
+
+    accepted = set()
+    with cf.ThreadPoolExecutor(nthreads) as ex:
+        results = list(ex.map(one, parts))
+    for k, n, r in results:
+        ctx.cov["models"].append({"model": f"MeshGeomTrace[{what} {k}..{k + n - 1}] (trace validation)", "traces": n,
+                                  "distinct_states": r.distinct, "states_generated": r.generated, "wall_s": round(r.wall, 2),
+                                  "violated": r.violated})
+        if r.errors or (not r.finished and not r.violated):
+            raise core.MachineryFailure(f"MeshGeomTrace[{what}]: TLC failed on traces: {r.errors[:3]}\n{r.out[-3000:]}")
+        ctx.cov["states"] += r.distinct
+        ctx.cov["transitions"] += r.generated
+        for line in r.printed():
+            mm = re.match(r'<<"ACCEPT", (\d+)>>', line)
+            if mm:
+                accepted.add(k + int(mm.group(1)) - 1)
+    return accepted
